@@ -14,5 +14,5 @@ Definition new_kind_group (op last_op : opk) : opk := (if (negb (opk_eqb op NO_O
 Definition gen_rec_of (m : meth) : rkind := match m with MCreate => RCopy | MSelect => RCopy | MWithColumn => RCopy | MWithColumnRenamed => RCopy | MToDF => RCopy | MDrop => RNone | MGroupBy => RNone | MGroupAgg => RCopy | MAgg => RCopy | MJoin => RNone | MFillna => RNone | MDropna => RNone | MDropDuplicates => RNone | MWhere => RNone | MOrderBy => RNone | MLimit => RNone | MDistinct => RNone end.
 Definition gen_resel_of (m : meth) : rsel := match m with MCreate => SelPrivate | MSelect => SelPrivate | MWithColumn => SelPrivate | MWithColumnRenamed => SelPrivate | MToDF => SelPrivate | MDrop => SelPrivate | MGroupBy => SelPrivate | MGroupAgg => SelPrivate | MAgg => SelPrivate | MJoin => SelPrivate | MFillna => SelPrivate | MDropna => SelPrivate | MDropDuplicates => SelPrivate | MWhere => SelPrivate | MOrderBy => SelPrivate | MLimit => SelPrivate | MDistinct => SelPrivate end.
 Definition gen_kind_of (m : meth) : option opk := match m with MCreate => None | MSelect => Some SELECT | MWithColumn => Some SELECT | MWithColumnRenamed => Some SELECT | MToDF => Some SELECT | MDrop => Some SELECT | MGroupBy => Some GROUP_BY | MGroupAgg => None | MAgg => Some SELECT | MJoin => Some FROM | MFillna => Some SELECT | MDropna => Some FROM | MDropDuplicates => Some SELECT | MWhere => Some WHERE | MOrderBy => Some ORDER_BY | MLimit => Some LIMIT | MDistinct => Some SELECT end.
-Definition gen_cfg : cfg := mkCfg gen_rec_of gen_resel_of gen_kind_of wrap_needed_df new_kind_df true wrap_needed_group new_kind_group true (Some SELECT) true true false true true true true true true true true true.
+Definition gen_cfg : cfg := mkCfg gen_rec_of gen_resel_of gen_kind_of wrap_needed_df new_kind_df true wrap_needed_group new_kind_group true (Some SELECT) true true false true true true true true true true true true true.
 
